@@ -77,12 +77,6 @@ class Report:
         for i in self.instances:
             if i["status"] in ("ok", "violation"):
                 per_rule[i["rule"]] = per_rule.get(i["rule"], 0) + 1
-        for rule, n in self.floors.items():
-            if per_rule.get(rule, 0) < n:
-                raise AnalysisError(
-                    f"rule {rule}: {per_rule.get(rule, 0)} instances matched, floor is {n} "
-                    "(the recognised idiom no longer matches the code; extend the idiom table)"
-                )
         violations = []
         known_hit = []
         for i in self.instances:
@@ -104,6 +98,14 @@ class Report:
                 known_hit.append((i, m))
             else:
                 violations.append(i)
+        if not violations:
+            # a floor is a non-vacuity guard: it turns a *silent* pass into exit 2; it never hides a violation
+            for rule, n in self.floors.items():
+                if per_rule.get(rule, 0) < n:
+                    raise AnalysisError(
+                        f"rule {rule}: {per_rule.get(rule, 0)} instances matched, floor is {n} "
+                        "(the recognised idiom no longer matches the code; extend the idiom table)"
+                    )
         lines = []
         for i, m in known_hit:
             lines.append(
